@@ -233,3 +233,63 @@ package lfs
 //@   props C04 C09
 //@   modifies fresh
 //@   ensures result ==> fexists(path) && len(fdata(path)) == sz
+
+// C03: the range scan.  A cached remote-tracking ref is used as an exclusion
+// point ("^sha": the remote already has this history) only if a branch of
+// that name still exists on the remote - a tag of the same name does not
+// count, since the branch's objects may have been collected.
+//@ func calcSkippedRefs
+//@   props C03
+//@   loop 1 invariant forall_v(k, has(actualRemoteRefsSet, k), has(actualRemoteRefsSet, k) ==> remotebranch(remote, k))
+//@   loop 2 invariant forall_v(k, has(actualRemoteRefsSet, k), has(actualRemoteRefsSet, k) ==> remotebranch(remote, k))
+//@   loop 2 iter len(skippedRefs) > iter(len(skippedRefs)) ==> remotebranch(remote, cachedRef.Name) && len(skippedRefs) == iter(len(skippedRefs)) + 1 && skippedRefs[iter(len(skippedRefs))] == scat("^", cachedRef.Sha)
+//@ func github.com/git-lfs/git-lfs/v3/git.RemoteRefs
+//@   assumed
+//@   props C03
+//@   modifies fresh
+//@   ensures forall_int(i, result0[i], 0 <= i && i < len(result0) ==> result0[i] != nil && (remotebranch(remoteName, result0[i].Name) || (withTags && remotetag(remoteName, result0[i].Name))))
+//@ func github.com/git-lfs/git-lfs/v3/git.CachedRemoteRefs
+//@   assumed
+//@   props C03
+//@   modifies fresh
+//@   ensures forall_int(i, result0[i], 0 <= i && i < len(result0) ==> result0[i] != nil)
+
+// Every pointer the object scan produces for an allowed path is handed to the
+// callback, and so is the scan's final error: nothing is dropped.
+//@ func (*GitScanner).ScanMultiRangeToRemote
+//@   props C03
+//@   requires @inv s != nil && s.cfg != nil
+//@   at call lfs.scanRefsToChanSingleIncludeMultiExclude:1 assert arg2__ == include && s.mode == ScanRangeToRemoteMode
+//@ func scanRefsToChanSingleIncludeMultiExclude
+//@   props C03
+//@   at call lfs.scanRefsToChan:1 assert len(arg2__) == 1 && arg2__[0] == include
+
+//@ func scanRefsToChan
+//@   props C03
+//@   requires @inv scanner != nil && scanner.Filter != nil && pointerCb != nil
+//@   loop 1 iter lastallow() ==> cbcount() == iter(cbcount()) + 1 && cblast() == p && cblasterr() == nil
+//@   loop 1 iter !lastallow() ==> cbcount() == iter(cbcount())
+//@   at call lfs.GitScannerFoundPointer:2 assert arg1__ != nil
+// The object scans themselves (git rev-list, cat-file --batch-check,
+// cat-file --batch) are assumed frames.
+//@ func revListShas
+//@   assumed
+//@   props C03
+//@   modifies fresh
+//@ func catFileBatchCheck
+//@   assumed
+//@   props C03
+//@   modifies fresh
+//@ func catFileBatch
+//@   assumed
+//@   props C03
+//@   modifies fresh
+//@   ensures result2 == nil ==> result0 != nil
+//@ func (*github.com/git-lfs/git-lfs/v3/tools.BaseChannelWrapper).Wait
+//@   assumed
+//@   props C03
+//@   modifies fresh
+//@ func (*nameMap).getName
+//@   assumed
+//@   props C03
+//@   noeffect
